@@ -430,7 +430,7 @@ class DHEat:
                 del timedout_sockets[0]
 
             # Open new sockets until we've hit the number of concurrent sockets, or if we exceeded the number of maximum connections.
-            while (len(socket_dict) < concurrent_sockets) and (len(socket_dict) + num_opened_connections < max_connections):
+            while (len(socket_dict) < concurrent_sockets) and (len(socket_dict) + num_opened_connections < max_connections) and (num_attempted_connections < max_connections):
                 s = socket.socket(target_address_family, socket.SOCK_STREAM)
                 s.setblocking(False)
 
